@@ -38,6 +38,8 @@ def demo_command(path):
                 continue
             if path not in cmd:
                 cmd = re.sub(r"(?<![\w/])" + re.escape(os.path.basename(path)), path, cmd)
+            cmd = re.sub(r"\s*\*/\s*$", "", cmd)                       # end of a one-line C comment
+            cmd = re.sub(r"/tmp/wt\d?-C\d+/", "", cmd)                 # the author's own worktree -> the scratch tree (cwd)
             return cmd
     return None
 
